@@ -1377,6 +1377,8 @@ int main(int argc, char **argv)
     for (size_t i = 0; i < cases.size(); i++) {
       if ((long long)i <= resume_after)
         continue;
+      // milliseconds per case, except getValueRange over every region of the larger extents (thorough tier)
+      vr::case_timeout_s() = cases[i].compare(0, 7, "vrange:") == 0 ? 600 : 10;
       vr::begin_case((long long)i, ctx_of(cases[i]), cases[i]);
       if (!run_case(cases[i]))
         vr::violation("harness|unparsable case", cases[i], "internal");
